@@ -432,6 +432,41 @@ func genFar(r *vproto.Rng, par [2]int, kind string, layout int, i int) *rtwire.H
 	return h
 }
 
+// bigk: more than 64 (and more than 128) stored objects and k around 64 / 128 / Size, so that
+// result slots beyond a fixed small prefix are exercised (every slot must start at MaxFloat64 and
+// every slot must be shifted by insertNearest).
+func genBigK(r *vproto.Rng, par [2]int, kind string, i int) *rtwire.Hist {
+	size := 66 + r.Intn(80)
+	h := rtwire.GenHist(r, 3, par, kind, size, 1)
+	h.Ops = nil
+	h.KQs = []rtwire.KQ{}
+	h.Class = fmt.Sprintf("nn-bigk-%s-m%dM%d", kind, par[0], par[1])
+	s := &st{h: h}
+	for id := range h.Pool {
+		s.ins(id)
+	}
+	sc := h.Scale
+	if sc == 0 {
+		sc = 1
+	}
+	ask := func() {
+		n := len(s.present)
+		for _, k := range []int{63, 64, 65, 66, n - 1, n, n + 3, 127, 128, 129, r.Range(60, n+2)} {
+			if k < 1 {
+				continue
+			}
+			o := h.Pool[r.Intn(len(h.Pool))]
+			s.ask(o.MinX+float64(r.Range(-3, 3))*sc, o.MaxY+float64(r.Range(-3, 3))*sc, k)
+		}
+	}
+	ask()
+	for c := 0; c < 5 && len(s.present) > 1; c++ {
+		s.del(s.present[r.Intn(len(s.present))])
+	}
+	ask()
+	return h
+}
+
 func gen(seed uint64, tier string) []*rtwire.Hist {
 	r := vproto.NewRng(seed ^ 0xC12)
 	var hs []*rtwire.Hist
@@ -641,6 +676,14 @@ func gen(seed uint64, tier string) []*rtwire.Hist {
 	for i := 0; i < nfar; i++ {
 		par := [][2]int{{2, 4}, {2, 3}, {2, 5}, {3, 6}, {4, 8}, {3, 7}}[i%6]
 		hs = append(hs, genFar(r, par, rtwire.Kinds[(i/6)%3], (i/2)%2, i))
+	}
+	nbig := 12
+	if tier == "thorough" {
+		nbig = 60
+	}
+	for i := 0; i < nbig; i++ {
+		par := [][2]int{{25, 50}, {4, 8}, {2, 4}, {3, 7}}[i%4]
+		hs = append(hs, genBigK(r, par, rtwire.Kinds[(i/4)%3], i))
 	}
 	return hs
 }
